@@ -114,7 +114,8 @@ def doc_reporting(t: Tape, marker: str) -> str:
         lines += ["GEN_C:", "  CONTENT::" + t.pick(["c", '"two words"'], "rep.cc"), "  STATUS::" + t.pick(["ACTIVE", "active", "A", "DONE"], "rep.cs"),
                   "  Status::on", "  A_B::1"]
     if t.choose(3, "rep.lit") == 0:
-        lines += ["CODE::", "  ```python", "  print('x  y')", "\tif x: pass" if False else "  if x: pass", "  ```"]
+        # literal zone with characters that have several Unicode spellings (composed/decomposed, ligature, full-width)
+        lines += ["CODE::", "  ```python", "  print('x  y')", "  if x: pass", "  s = 'caf\u00e9 \u00f1 \u212b \ufb01 \uff21'", "  ```"]
     lines.append("===END===")
     return "\n".join(lines) + "\n"
 
@@ -141,6 +142,31 @@ def doc_contract(t: Tape, marker: str) -> str:
     }
     return ("===SESSION===\nMETA:\n  TYPE::SESSION_LOG\n  VERSION::\"1.0\"\n  CONTRACT::[" + ",".join(specs[f] for f in fields)
             + f"]\nMARK::{marker}\nSTATUS::ACTIVE\n===END===\n")
+
+
+def near_twin(t: Tape, text: str):
+    """A DIFFERENT text that a sloppy cache key would confuse with ``text`` (normalisation form, case, surrounding or
+    trailing whitespace, final newline).  Returns None when the transformation changes nothing."""
+    import unicodedata
+
+    k = t.choose(8, "twin.kind")
+    if k == 0:
+        out = unicodedata.normalize("NFD", text)
+    elif k == 1:
+        out = unicodedata.normalize("NFC", text)
+    elif k == 2:
+        out = unicodedata.normalize("NFKC", text)
+    elif k == 3:
+        out = text.rstrip("\n")
+    elif k == 4:
+        out = text + "\n"
+    elif k == 5:
+        out = "\n".join(ln + " " for ln in text.split("\n"))
+    elif k == 6:
+        out = text.replace("::", ":: ", 1)
+    else:
+        out = text.swapcase() if len(text) < 400 else text.replace("a", "A", 1)
+    return out if out != text else None
 
 
 def mutate_text(t: Tape, text: str) -> str:
